@@ -4,7 +4,7 @@
    nothing but positions.  Gaps after a token that ends by look-ahead, literal spellings, != versus <>, redundant
    parentheses and trailing semicolons are decided by the correspondence run (C14_partial). *)
 From Coq Require Import ZArith List Bool.
-From Ckl Require Import Prelude.PyPrelude Prelude.LexPrelude Gen.LexGen Model.LexRun Proofs.LexProofs Proofs.LexLayout.
+From Ckl Require Import Prelude.PyPrelude Prelude.LexPrelude Gen.LexGen Model.LexRun Proofs.LexProofs Proofs.LexLayout Proofs.LexGaps.
 Import ListNotations.
 Open Scope Z_scope.
 
@@ -45,3 +45,19 @@ Theorem C14_whitespace_equivalent : forall fuel s1 s2 a rest acc1 acc2,
   erase_lexres (lex_loop fuel s1 (a :: rest) acc1) = erase_lexres (lex_loop fuel s2 (32 :: rest) acc2).
 Proof. exact ws_equiv. Qed.
 Print Assumptions C14_whitespace_equivalent.
+
+(* ANY gap - blanks, tabs, CR, LF, '#' comments up to their line feed, in any number and order - read in the blank state or
+   while an identifier, a number or an operator is still being read (and no token text is pending where there should be
+   none: [tidy]) is worth exactly ONE blank: the rest of the text yields the same token values and types.
+   [r] is slack for the at most two re-reads of a character on the way to the blank state. *)
+Theorem C14_any_gap_is_one_blank : forall r s, (rank s <= r)%nat -> (l_state s =? 0) = true \/ scan_state (l_state s) = true -> tidy s ->
+  forall g rest acc1 acc2 s2 f, erase_state s = erase_state s2 -> map erase_tok acc1 = map erase_tok acc2 ->
+  gap_ok false g = true -> g <> [] ->
+  erase_lexres (lex_loop (length g + f + r) s (g ++ rest) acc1) = erase_lexres (lex_loop (1 + f + r) s2 (32 :: rest) acc2).
+Proof. exact gap_equiv. Qed.
+Print Assumptions C14_any_gap_is_one_blank.
+
+(* the premises hold in a reachable situation: after reading "ab" the scanner is in the identifier state, tidy, of rank 1 *)
+Example C14_gap_premises : let s := mk_lstate 1 [97; 98] [] 1 2 1 1 true in
+  (rank s <= 1)%nat /\ scan_state (l_state s) = true /\ tidy s.
+Proof. cbn. repeat split; [apply le_n|intros [H|H]; discriminate H]. Qed.
